@@ -192,6 +192,7 @@ def run(F, res, tier):
            "SearchScope::single_file" in calls and "FindUsages::all" in calls, where=hl.loc(), how=str([c for c in calls if "Search" in c or "FindUsages" in c]))
     search_rejections_are_reviewed(F, res)
     search_scope_narrowings_are_reviewed(F, res)
+    textual_hits_may_overlap(F, res)
 
 
 def EF_constructions(F, adt):
@@ -356,6 +357,10 @@ SEARCH_DECIDES = {
     "adaptor:Iterator::filter": "the range test, as an adaptor",
     "adaptor:Iterator::find": "the token whose text is the name, among the (at most two) tokens at the offset",
     "Definition::name": "a definition without a name has no textual hits",
+    "Finder::find": "the text search itself: the next place where the name is written (None: no more)",
+    "adaptor:Finder::find": "the text search itself",
+    "[T]::get": "the rest of the text behind the last hit (None: the text is used up)",
+    "slice::get": "the rest of the text behind the last hit",
 }
 SEARCH_PLUMBING = ("Iterator::next", "IntoIterator::into_iter", "Option::is_none", "Option::is_some", "Try::branch", "const", "multi", "arg",
                    "Interest::is_never", "__macro_support::__is_enabled", "dispatcher::has_been_set", "PartialOrd::le", "PartialOrd::lt",
@@ -460,6 +465,22 @@ SCOPE_DECIDES = {
     "Definition::module": "a definition without a module (a built-in) has nothing to search",
     "arg": "a local is searched for in its own file only (the variant of the definition)",
 }
+
+
+def textual_hits_may_overlap(F, res, rule="R10"):
+    """R10: every place where the name is written is a candidate, also one that starts inside the textual hit before it. The lexer
+    splits `0x1x1x1` into the number `0x1` and the identifier `x1x1`; a search that reports non-overlapping hits only (`find_iter`,
+    `str::matches`, `match_indices` of the standard library) finds `x1x1` at offset 1, skips to offset 5 and never offers the identifier at
+    offset 3 to the classifier: go-to-definition from it finds the declaration, references does not list it."""
+    unit = [p for p in sorted(F.fns) if p.startswith("ide::def::search::FindUsages::search") and F.fns[p].blocks]
+    non_overlapping = sorted({FL.short(callee(t) or callee_def(t) or "") for p in unit for _b, t in F.fns[p].calls()
+                              if FL.short(callee(t) or callee_def(t) or "").rsplit("::", 1)[-1] in ("find_iter", "rfind_iter", "matches", "rmatches", "match_indices", "rmatch_indices", "split")
+                              and (callee(t) or "") not in F.fns})
+    searches = sorted({FL.short(callee(t) or callee_def(t) or "") for p in unit for _b, t in F.fns[p].calls()
+                       if FL.short(callee(t) or callee_def(t) or "") in ("Finder::find", "memmem::find", "str::find")})
+    res.ob(rule, "search/overlapping-hits", "the usage search asks for the next hit from one byte behind the start of the last one (no iterator of non-overlapping "
+           "matches)", bool(searches) and not non_overlapping, where="crates/ide/src/def/search.rs",
+           how="searches with %s" % searches if not non_overlapping else "non-overlapping match iterators: %s" % non_overlapping)
 
 
 def search_scope_narrowings_are_reviewed(F, res, rule="R9"):
